@@ -882,6 +882,8 @@ def main():
     # (theorem C13_sort_total about the Coq model; the model is tied to model.topological_sort here)
     import sortcorr
     sortcorr.run(chk, 300 if chk.tier == 'quick' else 5000, 3)
+    import filecorr
+    filecorr.run(chk, 200 if chk.tier == 'quick' else 3000)
     chk.assumptions += ['PLY, ElementTree, argparse and libclang are not modelled: the theorem covers the dependency sort of the middle end; everything else is decided by the robustness run']
     return chk.finish(level="proof")
 
